@@ -924,10 +924,11 @@ def arc_sense(repo: Repo) -> RuleRun:
         op.set("top_face", top)
         side = mk_angle("side.e0")
         side_spline = mk_spline("side.e1")
-        op.set("side_edges", [side, side_spline] + [Obj(f"side.e{i}", cls=line_cls) for i in range(2, 4)])
+        # straight edges first and in between: every side edge is reversed, whatever precedes it
+        op.set("side_edges", [Obj("side.e0-line", cls=line_cls), side, Obj("side.e2-line", cls=line_cls), side_spline])
         op.set("side_projects", [None] * 4)
         op.set("side_patches", [None] * 4)
-        b0, t0 = bottom.get("points")[0], top.get("points")[0]
+        b0, t0 = bottom.get("points")[1], top.get("points")[1]
         fedge, f0, f1 = bottom.get("edges")[0], bottom.get("points")[0], bottom.get("points")[1]
         m = repo.find_method(op_cls, kind)
         _run_sense(Evaluator(repo=repo, module=m.module, call_hook=hook), m, [op, *targs])
@@ -948,7 +949,7 @@ def arc_sense(repo: Repo) -> RuleRun:
         r.require(len(where) == 1, f"Operation.{kind}: the spline side edge is in {len(where)} slots afterwards")
         j = where[0]
         ends = (op.get("bottom_face").get("points")[j]._name, op.get("top_face").get("points")[j]._name)
-        direction = 1 if ends == ("bottom.p1", "top.p1") else -1 if ends == ("top.p1", "bottom.p1") else 0
+        direction = 1 if ends == ("bottom.p3", "top.p3") else -1 if ends == ("top.p3", "bottom.p3") else 0
         _judge_order(r, m, f"Operation.{kind}: spline side edge", kind, direction, *spline_order(side_spline, kind))
     return r
 
